@@ -309,6 +309,72 @@ fn run<S: Subject + Hash + Ord>(c: &Case, name: &str, obs: &mut Obs) -> Verdict 
     Ok(())
 }
 
+/// AdjacencyMap digraphs whose vertex sets differ only in isolated ids, or
+/// have gaps: equality, ordering and hashing must see the vertex set, and
+/// `clone_from` must replace it.
+fn map_vertex_sets(c: &Case) -> Verdict {
+    use crate::gen::MapDg;
+    use crate::reprs::{build_map, map_model_of, same};
+    let n = c.order;
+    let arcs: Vec<(usize, usize)> = c.arcs.iter().map(|a| (a.0, a.1)).collect();
+    let base: Vec<usize> = (0..n).collect();
+    let with = |extra: &[usize], drop: Option<usize>| {
+        let mut vs = base.clone();
+        vs.extend_from_slice(extra);
+        if let Some(k) = drop {
+            vs.retain(|&v| v != k);
+        }
+        if vs.is_empty() {
+            vs.push(n + 7);
+        }
+        MapDg {
+            arcs: arcs.iter().copied().filter(|(u, v)| vs.contains(u) && vs.contains(v)).collect(),
+            vertices: vs,
+        }
+    };
+    let x = n + 1 + (c.diff_pick.0 as usize % 5);
+    let y = x + 1 + (c.diff_pick.1 as usize % 3);
+    let k = gen::idx(c.diff_pick.0, n);
+    let specs = [with(&[x], None), with(&[y], None), with(&[x, y], None), with(&[], Some(k)), with(&[x], Some(k))];
+    let maps: Vec<AdjacencyMap> = specs.iter().map(build_map).collect();
+    for (s, m) in specs.iter().zip(&maps) {
+        same(m, &map_model_of(s), "building a non-contiguous AdjacencyMap through the public API")?;
+    }
+    for i in 0..maps.len() {
+        for j in 0..maps.len() {
+            let same_abstract = map_model_of(&specs[i]) == map_model_of(&specs[j]);
+            ensure!(
+                (maps[i] == maps[j]) == same_abstract,
+                "AdjacencyMap: digraphs with vertex sets {:?} and {:?} (same arcs) compare == {}",
+                specs[i].vertices,
+                specs[j].vertices,
+                maps[i] == maps[j]
+            );
+            ensure!(
+                (maps[i].cmp(&maps[j]) == Ordering::Equal) == same_abstract,
+                "AdjacencyMap: digraphs with vertex sets {:?} and {:?} compare {:?}",
+                specs[i].vertices,
+                specs[j].vertices,
+                maps[i].cmp(&maps[j])
+            );
+            if same_abstract {
+                ensure!(hash_of(&maps[i]) == hash_of(&maps[j]), "AdjacencyMap: equal digraphs hash differently");
+            }
+            // clone_from across different vertex sets (gaps, extra ids)
+            let mut t = maps[j].clone();
+            t.clone_from(&maps[i]);
+            ensure!(
+                t == maps[i] && hash_of(&t) == hash_of(&maps[i]),
+                "AdjacencyMap: a digraph on {:?} after clone_from(a digraph on {:?}) is not equal to its source: {t:?}",
+                specs[j].vertices,
+                specs[i].vertices
+            );
+            same(&t, &map_model_of(&specs[i]), "AdjacencyMap after clone_from")?;
+        }
+    }
+    Ok(())
+}
+
 /// is_complete of AdjacencyMatrix / EdgeList is implemented as
 /// `== complete(order)`: it must agree with the definition on digraphs that
 /// *became* complete through a removal history.
@@ -463,6 +529,9 @@ impl Prop for C20 {
         }
         if c.repr % 6 == 2 || c.repr % 6 == 3 {
             complete_via_history(c.order.min(12))?;
+        }
+        if c.repr % 6 == 1 && c.order <= 64 {
+            map_vertex_sets(c)?;
         }
         let _ = HCase {
             repr: 0,
